@@ -443,7 +443,7 @@ func c06GenerateSpace(c *fw.Ctx) {
 	for _, off := range []string{"2147483647", "2147483648", "-2147483648", "-2147483649", "4294967296", "9223372036854775807", "-9223372036854775808", "9223372036854775808"} {
 		mods = append(mods, "${"+off+"}", "${"+off+",0,d}")
 	}
-	mods = append(mods, "$", "$$", `\$`, "$$$", `\$$`, "$-$", "${0,3,d}${1,2,x}", "${0,0,q}", "${0,3,d,1}", "${x}", "${0,x}", "${0,3,d", `\.$`, `b\.c$`, `\046$`)
+	mods = append(mods, "$", "$$", `\$`, "$$$", `\$$`, "$-$", "${0,3,d}${1,2,x}", "${0,0,q}", "${0,3,d,1}", "${x}", "${0,x}", "${0,3,d", `\.$`, `b\.c$`, `\046$`, `\\$`, `b\\c$`, `$\\`, `\\\$`)
 	type tmpl struct{ lhs, typ, rhs string }
 	var tmpls []tmpl
 	for _, m := range mods {
@@ -455,7 +455,7 @@ func c06GenerateSpace(c *fw.Ctx) {
 			tmpl{"h" + m + "k", "CNAME", m + "-t"}, // inside a label
 		)
 	}
-	c.Space("generate", fmt.Sprintf("$GENERATE: ranges %v × %d templates (every ${offset[,width[,base]]} with offset ∈ {-1,0,1,10}, width ∈ {0,1,3}, base ∈ {d,o,x,X}; offsets ±2^31, ±2^63 and their neighbours; $, $$, \\$, trailing $, several $ per template, malformed modifiers, other escapes next to a $; each placed at the end / start / inside of the owner, in a CNAME target and in an A address) and the large ranges %v with one template; explicit TTL 7; origins {\".\",\"example.\"}; followed by a record line with explicit owner and TTL; non-trivial: the range is valid and the template contains a $", ranges, len(tmpls), big), true,
+	c.Space("generate", fmt.Sprintf("$GENERATE: ranges %v × %d templates (every ${offset[,width[,base]]} with offset ∈ {-1,0,1,10}, width ∈ {0,1,3}, base ∈ {d,o,x,X}; offsets ±2^31, ±2^63 and their neighbours; $, $$, \\$, trailing $, several $ per template, malformed modifiers, other escapes next to a $, escaped backslashes next to a $; each placed at the end / start / inside of the owner, in a CNAME target and in an A address) and the large ranges %v with one template; explicit TTL 7; origins {\".\",\"example.\"}; followed by a record line with explicit owner and TTL; non-trivial: the range is valid and the template contains a $", ranges, len(tmpls), big), true,
 		func(emit func(func(*fw.R))) {
 			one := func(rng string, t tmpl) {
 				emit(func(r *fw.R) {
